@@ -402,6 +402,30 @@ def r4d(prog, rep):
                 on_some = (vals == [1]) or (vals is None and 1 not in (neg or []) and 0 in (neg or []))
                 if (any(fl == 'total_acb' for of, fl in d.fields) or d.has_call(r'per_share_acb$')) and on_some:
                     guarded = True
+            if not guarded and r.get('ops') and is_place(r['ops'][0]):
+                # the previous cost base is fetched by a helper (`let old = acb_to_adjust(..)?`) that answers Ok only on the Some
+                # edge of the status' cost base
+                src = mir.provenance(f, r['ops'][0], follow_all_call_args=True)
+                escapes = [x for x in src.calls if x.short in ('unwrap_or', 'unwrap_or_else', 'unwrap_or_default', 'ok', 'map_or', 'map_or_else', 'or', 'or_else',
+                                                              'is_ok', 'is_err', 'unwrap_err', 'err')]
+                for x in ([] if escapes else src.calls):
+                    h = prog.resolve(x.callee, f.crate)
+                    if h is None or h.kind not in ('Fn', 'AssocFn') or not re.search(r'^std::result::Result<', h.ty.get(0) or ''):
+                        continue
+                    oks = [(i, st) for i, b in h.blocks.items() for st in b['stmts']
+                           if st['dst']['l'] == 0 and not st['dst']['p'] and st['r']['rv'] == 'agg' and st['r']['kind'].endswith('Result::Ok')]
+                    def some_edge(i):
+                        for (sbb, discr, vals, neg) in h.conditions_at(i):
+                            d = mir.provenance(h, discr, follow_all_call_args=True)
+                            on_some = (vals == [1]) or (vals is None and 1 not in (neg or []) and 0 in (neg or []))
+                            if any(fl == 'total_acb' for of, fl in d.fields) and on_some:
+                                return True
+                        return False
+                    # ... and the helper's Err leaves the ledger step through `?` before the assignment
+                    q = [b2 for b2 in src.calls if b2.short == 'branch' and b2.args and x in mir.provenance(f, b2.args[0], pass_through=set()).calls
+                         and f.dominates(b2.bb, bb)]
+                    if oks and all(some_edge(i) for i, _ in oks) and not any(c2.short == 'from_output' for c2 in h.calls) and q:
+                        guarded = True
             arm = [a for a, rg in L.region.items() if bb in rg]
             k = 'no-%s-without-previous-cost-base|%s#%d' % (what.replace(' ', '-'), arm[0] if arm else '?', n)
             if guarded:
